@@ -63,7 +63,7 @@ fn map_target(t: &mut TargetRef, leaf_map: &dyn Fn(usize) -> usize, coll_map: &d
 
 fn map_member(m: &mut MemberSpec, leaf_map: &dyn Fn(usize) -> usize, coll_map: &dyn Fn(usize) -> usize) {
 	match m {
-		MemberSpec::Leaf(i) | MemberSpec::Wrap(i) => *i = leaf_map(*i),
+		MemberSpec::Leaf(i) | MemberSpec::Wrap(i) | MemberSpec::EmptyOwnedAt(i) => *i = leaf_map(*i),
 		MemberSpec::Coll(j) => *j = coll_map(*j),
 		MemberSpec::Inner(j, _) => *j = coll_map(*j),
 	}
@@ -175,7 +175,7 @@ fn referenced(world: &WorldSpec, steps: &[&Step]) -> (Vec<bool>, Vec<bool>) {
 	let nleaf = world.leaves.len();
 	let mut work: Vec<usize> = Vec::new();
 	let mark_member = |m: &MemberSpec, colls: &mut Vec<bool>, leaves: &mut Vec<bool>, work: &mut Vec<usize>| match m {
-		MemberSpec::Leaf(i) | MemberSpec::Wrap(i) => {
+		MemberSpec::Leaf(i) | MemberSpec::Wrap(i) | MemberSpec::EmptyOwnedAt(i) => {
 			if *i < leaves.len() {
 				leaves[*i] = true;
 			}
